@@ -48,6 +48,7 @@ func main() {
 	explain := flag.String("explain", "", "replay file to re-decide and print")
 	noEvidence := flag.Bool("variant", false, "variant mode: print obligations that are not holds as JSON on stdout, write nothing")
 	list := flag.Bool("list", false, "list properties with rules")
+	props := flag.String("props", "", "with -variant: comma-separated property ids decided on one load; prints {id: [obligations that are not holds]}")
 	ov := overlayFlag{}
 	flag.Var(ov, "overlay", "file=replacement (may repeat): analyse with file's content replaced")
 	flag.Parse()
@@ -79,6 +80,18 @@ func main() {
 	}
 	if t := os.Getenv("VERIF_TIER"); t != "" && *explain == "" && !isFlagSet("tier") {
 		*tier = t
+	}
+	if *props != "" {
+		overlay := map[string][]byte{}
+		for f, r := range ov {
+			b, err := os.ReadFile(r)
+			if err != nil {
+				fmt.Println("overlay:", err)
+				os.Exit(2)
+			}
+			overlay[f] = b
+		}
+		os.Exit(runMany(strings.Split(*props, ","), *repo, overlay))
 	}
 	rule, ok := rules.Registry[*prop]
 	if !ok {
@@ -202,4 +215,44 @@ func run(prop, tier, repo, verif string, overlay map[string][]byte, rule rules.R
 		}
 	}
 	return report.Finish(res, verif, tier, seed, start, known, variants, false)
+}
+
+// runMany decides several properties on one load of the program (exploration aid for tools/mutsweep.py; writes no
+// evidence). A load or type error is reported as an "engine" obligation under every property.
+func runMany(ids []string, repo string, overlay map[string][]byte) int {
+	out := map[string][]report.Obligation{}
+	prog, err := load.Load(load.Options{RepoDir: repo, Overlay: overlay})
+	for _, id := range ids {
+		rule, ok := rules.Registry[id]
+		if !ok {
+			continue
+		}
+		if err != nil {
+			out[id] = []report.Obligation{{Rule: "engine", Construct: "analysis", Status: report.Undecided, Detail: err.Error()}}
+			continue
+		}
+		func() {
+			defer func() {
+				if p := recover(); p != nil {
+					out[id] = []report.Obligation{{Rule: "engine", Construct: "analysis", Status: report.Undecided, Detail: fmt.Sprint("checker panic: ", p)}}
+				}
+			}()
+			res, rerr := rule(&rules.Ctx{Prog: prog, Tier: "quick", RepoDir: repo, Overlay: overlay})
+			bad := []report.Obligation{}
+			if rerr != nil {
+				bad = append(bad, report.Obligation{Rule: "engine", Construct: "analysis", Status: report.Undecided, Detail: rerr.Error()})
+			}
+			if res != nil {
+				for _, o := range res.Obligations {
+					if o.Status != report.Holds {
+						bad = append(bad, o)
+					}
+				}
+			}
+			out[id] = bad
+		}()
+	}
+	b, _ := json.Marshal(out)
+	fmt.Println(string(b))
+	return 0
 }
